@@ -433,6 +433,13 @@ pub fn close_position_reply(
         }
     }
 
+    // with native collateral the fees are the caller's to pay, not the vault's: exactly they must be attached
+    if let AssetInfo::NativeToken { .. } = &config.eligible_collateral {
+        let mut funds = read_sent_funds(deps.storage)?;
+        funds.required = fees_amount[0].checked_add(fees_amount[1])?;
+        funds.are_sufficient()?;
+    }
+
     if !transfers.is_empty() {
         msgs.append(
             &mut withdraw_many(
@@ -464,6 +471,7 @@ pub fn close_position_reply(
     store_state(deps.storage, &state)?;
 
     remove_tmp_swap(deps.storage);
+    remove_sent_funds(deps.storage);
 
     Ok(Response::new().add_submessages(msgs).add_attributes(vec![
         ("action", "close_position_reply"),
@@ -535,6 +543,13 @@ pub fn partial_close_position_reply(
     // calculate the fees
     let fees = transfer_fees(deps.as_ref(), swap.trader, swap.vamm, swap.open_notional).unwrap();
 
+    // with native collateral the fees are the caller's to pay, not the vault's: exactly they must be attached
+    if let AssetInfo::NativeToken { .. } = read_config(deps.storage)?.eligible_collateral {
+        let mut funds = read_sent_funds(deps.storage)?;
+        funds.required = fees.spread_fee.checked_add(fees.toll_fee)?;
+        funds.are_sufficient()?;
+    }
+
     // set the new position
     position.size += signed_output;
     position.margin = margin;
@@ -552,6 +567,7 @@ pub fn partial_close_position_reply(
 
     // remove the tmp position
     remove_tmp_swap(deps.storage);
+    remove_sent_funds(deps.storage);
 
     Ok(Response::new()
         .add_submessages(fees.messages)
